@@ -91,14 +91,19 @@ class Runner:
                 tuple(b.get("libs", ["-lrapidcheck", "-lpthread"])), self.log)
 
     # -- violation bookkeeping --------------------------------------------
-    def confirm(self, binary, candidate, why, accept=("fail", "crash")):
+    def confirm(self, binary, candidate, why, accept=("fail", "crash", "timeout"), timeout=120):
         """Replay a candidate 3x in fresh processes; only a reproducible failure is a violation."""
+        if len(self.violations) >= 3:   # enough replays to act on; do not spend minutes confirming more
+            self.extra_failures = getattr(self, "extra_failures", 0) + 1
+            return False
         os.makedirs(self.found_dir, exist_ok=True)
         with open(candidate, "rb") as f:
             data = f.read()
         dest = os.path.join(self.found_dir, hashlib.sha256(data).hexdigest()[:16] + ".json")
         shutil.copyfile(candidate, dest)
-        res = [run_replay(binary, dest, self.env) for _ in range(3)]
+        from concurrent.futures import ThreadPoolExecutor
+        with ThreadPoolExecutor(3) as ex:
+            res = list(ex.map(lambda _: run_replay(binary, dest, self.env, timeout), range(3)))
         if all(r[0] in accept for r in res):
             detail = res[0][1].strip().splitlines()
             self.violations.append((dest, why or (detail[-1] if detail else "")))
@@ -108,30 +113,33 @@ class Runner:
 
     # -- replay tier --------------------------------------------------------
     def replay_tier(self):
-        n = 0
+        from concurrent.futures import ThreadPoolExecutor
         default_bin = next(iter(self.bins.values()))
+        jobs = []
         for path in sorted(glob.glob(os.path.join(VERIF, "replays", self.pid, "*.json"))):
             with open(path) as f:
                 meta = json.load(f)
-            binary = self.bins.get(meta.get("bin", ""), default_bin)
-            expect = meta.get("expect", "pass")   # pass | known:<KF id>
-            st, out = run_replay(binary, path, self.env)
-            n += 1
-            if expect.startswith("known:"):
+            jobs.append((path, self.bins.get(meta.get("bin", ""), default_bin), meta.get("expect", "pass")))
+        with ThreadPoolExecutor(NCPU) as ex:
+            outs = list(ex.map(lambda j: run_replay(j[1], j[0], self.env, 60), jobs))
+        for (path, binary, expect), (st, out) in zip(jobs, outs):
+            last = out.strip().splitlines()[-1] if out.strip() else ""
+            if st == "timeout":
+                self.violations.append((path, "replayed case did not return within 60 s (normal: milliseconds)"))
+            elif expect.startswith("known:"):     # a listed finding: expected to fail still
                 kid = expect.split(":", 1)[1]
-                if st in ("fail", "crash", "known", "timeout"):
+                if st in ("fail", "crash", "known"):
                     self.known_hits[kid] = self.known_hits.get(kid, 0) + 1
                 else:
                     self.notes.append("known finding %s no longer reproduces on %s" % (kid, os.path.basename(path)))
-            else:
-                if st in ("fail", "crash"):
-                    res = [run_replay(binary, path, self.env)[0] for _ in range(2)]
-                    if all(r in ("fail", "crash") for r in res):
-                        self.violations.append((path, "regression case fails: " + out.strip().splitlines()[-1] if out.strip() else "crash"))
-                elif st == "known":
-                    kid = out.strip().split()[-1]
-                    self.known_hits[kid] = self.known_hits.get(kid, 0) + 1
-        return n
+            elif st in ("fail", "crash"):
+                res = [run_replay(binary, path, self.env, 60)[0] for _ in range(2)]
+                if all(r in ("fail", "crash") for r in res):
+                    self.violations.append((path, "regression case fails: " + (last or "crash")))
+            elif st == "known":
+                kid = last.split()[-1]
+                self.known_hits[kid] = self.known_hits.get(kid, 0) + 1
+        return len(jobs)
 
     # -- generated search -----------------------------------------------------
     def run_parts(self):
@@ -163,16 +171,34 @@ class Runner:
                 procs.append(dict(p=p, part=part, tag=tag, out=out, scratch=scratch, fail=fail, binary=binary, log=logf.name))
         budget = self.cfg.get("timeout", {}).get(tier, 900 if tier == "quick" else 7200)
         deadline = time.time() + budget
+        hang_s = self.cfg.get("hang_s", 60)
+        pending = list(procs)
         results = []
-        for pr in procs:
-            try:
-                rc = pr["p"].wait(timeout=max(1, deadline - time.time()))
-            except subprocess.TimeoutExpired:
-                pr["p"].kill()
-                pr["p"].wait()
-                rc = "timeout"
-            pr["rc"] = rc
-            results.append(pr)
+        while pending:
+            time.sleep(0.5)
+            now = time.time()
+            for pr in list(pending):
+                rc = pr["p"].poll()
+                if rc is None:
+                    stuck = False
+                    try:
+                        if pr["part"].get("kind") != "enum" and os.path.getsize(pr["scratch"]) > 0:
+                            stuck = now - os.path.getmtime(pr["scratch"]) > hang_s
+                    except OSError:
+                        pass
+                    if stuck:
+                        pr["p"].kill()
+                        pr["p"].wait()
+                        rc = "hang"
+                    elif now > deadline:
+                        pr["p"].kill()
+                        pr["p"].wait()
+                        rc = "timeout"
+                    else:
+                        continue
+                pr["rc"] = rc
+                pending.remove(pr)
+                results.append(pr)
         return results
 
     def digest(self, results):
@@ -207,6 +233,11 @@ class Runner:
                 continue
             if rc == "timeout":
                 agg["inconclusive"].append("%s: wall-clock budget reached (not a violation)" % pr["tag"])
+                continue
+            if rc == "hang":
+                # one case has been running for > hang_s seconds (normal: milliseconds): confirm by replay
+                self.confirm(pr["binary"], pr["scratch"], "operation did not return within the hang limit",
+                             accept=("timeout",), timeout=self.cfg.get("hang_s", 60))
                 continue
             if rc == 1 and os.path.exists(pr["fail"]):
                 with open(pr["fail"]) as f:
@@ -247,7 +278,8 @@ class Runner:
             exhaustive=False,
             exhaustive_scopes=agg["exhaustive_scopes"],
             replayed_regression_cases=n_replays,
-            known_finding_hits={**agg["known"], **{k: v for k, v in self.known_hits.items()}},
+            known_finding_hits={k: agg["known"].get(k, 0) + self.known_hits.get(k, 0)
+                                for k in set(agg["known"]) | set(self.known_hits)},
             unreproduced=self.unreproduced,
             inconclusive=agg["inconclusive"],
             notes=self.notes,
